@@ -103,6 +103,10 @@ class FString(object):
         return filter(self.is_correct_ast, actual_candidates)
 
     def str_for(self, s, quote):
+        if self.pep701:
+            # Escape sequences are allowed in a nested f-string
+            return str(MiniString(s, quote)).replace('{', '{{').replace('}', '}}')
+
         return s.replace('{', '{{').replace('}', '}}')
 
 
